@@ -133,6 +133,18 @@ pub proof fn lemma_not_root(types: &PortableRegistry, m: Map<u32, SynTypePath>, 
         lemma_seen_step(types, m, k, q);
     }
 }
+/// the same as an implication, callable at the START of the loop body: whichever way the body finds out that type k is
+/// not a root (no path, or no recursive registration left for its path) and moves on -- `continue`, a `match`, a nested `if let` --
+/// the invariant for k + 1 is already in the context
+pub proof fn lemma_not_root_if(types: &PortableRegistry, m: Map<u32, SynTypePath>, r0: Map<SynTypePath, Derives>, rc: Map<SynTypePath, Derives>, k: int, a: Map<u32, Derives>)
+    requires 0 <= k < types.types@.len(), acc_ok(types, m, r0, k, a), rec_inv(types, m, r0, rc, k),
+    ensures
+        (!m.contains_key(types.types@[k].id) || !rc.contains_key(m[types.types@[k].id])) ==> acc_ok(types, m, r0, k + 1, a) && rec_inv(types, m, r0, rc, k + 1),
+        m.contains_key(types.types@[k].id) && !rc.contains_key(m[types.types@[k].id]) ==> rc.remove(m[types.types@[k].id]) == rc,
+{
+    if !m.contains_key(types.types@[k].id) || !rc.contains_key(m[types.types@[k].id]) { lemma_not_root(types, m, r0, rc, k, a); }
+    if m.contains_key(types.types@[k].id) && !rc.contains_key(m[types.types@[k].id]) { assert(rc.remove(m[types.types@[k].id]) =~= rc); }
+}
 pub proof fn lemma_seen_step(types: &PortableRegistry, m: Map<u32, SynTypePath>, k: int, q: SynTypePath)
     requires 0 <= k < types.types@.len()
     ensures seen(types, m, k + 1, q) == (seen(types, m, k, q) || (m.contains_key(types.types@[k].id) && m[types.types@[k].id] == q))
@@ -241,16 +253,20 @@ pub proof fn lemma_mid_step(types: &PortableRegistry, m: Map<u32, SynTypePath>, 
         if aa(a0, id, y) { }
     }
 }
-pub proof fn lemma_mid_finish(types: &PortableRegistry, m: Map<u32, SynTypePath>, r0: Map<SynTypePath, Derives>, rc0: Map<SynTypePath, Derives>, rc1: Map<SynTypePath, Derives>, k: int, a: Map<u32, Derives>, u: Seq<u32>, x: Derives, s: Set<u32>)
+/// the sequence u lists exactly the members of a set that collect_type_ids produced from the empty set for `root`
+pub open spec fn collected_as(types: &PortableRegistry, root: u32, u: Seq<u32>) -> bool {
+    exists|s: Set<u32>| #[trigger] call_post(types, root, Set::<u32>::empty(), s) && (forall|y: u32| s.contains(y) <==> u.contains(y))
+}
+pub proof fn lemma_mid_finish(types: &PortableRegistry, m: Map<u32, SynTypePath>, r0: Map<SynTypePath, Derives>, rc0: Map<SynTypePath, Derives>, rc1: Map<SynTypePath, Derives>, k: int, a: Map<u32, Derives>, u: Seq<u32>, x: Derives)
     requires 0 <= k < types.types@.len(), closed(types),
         rec_inv(types, m, r0, rc0, k), m.contains_key(types.types@[k].id), rc0.contains_key(m[types.types@[k].id]),
         rc1 == rc0.remove(m[types.types@[k].id]), x.derives@ == rc0[m[types.types@[k].id]].derives@, x.attributes@ == rc0[m[types.types@[k].id]].attributes@,
         mid_ok(types, m, r0, k, a, u, u.len() as int, x),
-        call_post(types, types.types@[k].id, Set::<u32>::empty(), s),
-        forall|y: u32| s.contains(y) <==> u.contains(y),
+        collected_as(types, types.types@[k].id, u),
     ensures acc_ok(types, m, r0, k + 1, a), rec_inv(types, m, r0, rc1, k + 1)
 {
     let idk = types.types@[k].id;
+    let s = choose|s: Set<u32>| #[trigger] call_post(types, idk, Set::<u32>::empty(), s) && (forall|y: u32| s.contains(y) <==> u.contains(y));
     let q = m[idk];
     assert(rc0.contains_key(q) == (r0.contains_key(q) && !seen(types, m, k, q)));
     assert(root_at(types, m, r0, k)) by {
@@ -296,7 +312,7 @@ pub open spec fn hit_a(m: Map<u32, SynTypePath>, e: Seq<(u32, Derives)>, n: int,
     exists|j: int| 0 <= j < n && m.contains_key((#[trigger] e[j]).0) && m[e[j].0] == p && e[j].1.attributes@.contains(y)
 }
 pub open spec fn merge_ok(m: Map<u32, SynTypePath>, mc: Map<u32, SynTypePath>, s0: Map<SynTypePath, Derives>, sc: Map<SynTypePath, Derives>, e: Seq<(u32, Derives)>, n: int) -> bool {
-    &&& forall|id: u32| (#[trigger] mc.contains_key(id)) == (m.contains_key(id) && !in_keys(e, n, id)) && (mc.contains_key(id) ==> mc[id] == m[id])
+    &&& forall|id: u32| !in_keys(e, n, id) ==> (#[trigger] mc.contains_key(id)) == m.contains_key(id) && (mc.contains_key(id) ==> mc[id] == m[id])
     &&& forall|p: SynTypePath, d: SynPath| #[trigger] sd(sc, p, d) == (sd(s0, p, d) || hit_d(m, e, n, p, d))
     &&& forall|p: SynTypePath, y: SynAttribute| #[trigger] sa(sc, p, y) == (sa(s0, p, y) || hit_a(m, e, n, p, y))
 }
@@ -308,23 +324,24 @@ pub proof fn lemma_merge_init(m: Map<u32, SynTypePath>, s0: Map<SynTypePath, Der
 pub proof fn lemma_merge_step(m: Map<u32, SynTypePath>, mc0: Map<u32, SynTypePath>, mc1: Map<u32, SynTypePath>, s0: Map<SynTypePath, Derives>, sc0: Map<SynTypePath, Derives>, sc1: Map<SynTypePath, Derives>, e: Seq<(u32, Derives)>, n: int)
     requires 0 <= n < e.len(), merge_ok(m, mc0, s0, sc0, e, n),
         forall|i: int, j: int| 0 <= i < j < e.len() ==> (#[trigger] e[i]).0 != (#[trigger] e[j]).0,
-        mc1 == mc0.remove(e[n].0),
+        forall|i2: u32| i2 != e[n].0 ==> (#[trigger] mc1.contains_key(i2)) == mc0.contains_key(i2) && (mc0.contains_key(i2) ==> mc1[i2] == mc0[i2]),
         mc0.contains_key(e[n].0) ==> ext_path(sc0, sc1, mc0[e[n].0], e[n].1),
         !mc0.contains_key(e[n].0) ==> sc1 == sc0,
     ensures merge_ok(m, mc1, s0, sc1, e, n + 1)
 {
     let id = e[n].0;
-    assert(mc0.contains_key(id) == (m.contains_key(id) && !in_keys(e, n, id)));
     assert(!in_keys(e, n, id)) by {
         if in_keys(e, n, id) { let j = choose|j: int| 0 <= j < n && (#[trigger] e[j]).0 == id; assert(e[j].0 != e[n].0); }
     }
+    assert(mc0.contains_key(id) == m.contains_key(id));
     assert forall|i2: u32| in_keys(e, n + 1, i2) == (in_keys(e, n, i2) || i2 == id) by {
         if in_keys(e, n + 1, i2) { let j = choose|j: int| 0 <= j < n + 1 && (#[trigger] e[j]).0 == i2; if j < n { assert(in_keys(e, n, i2)); } }
         if in_keys(e, n, i2) { let j = choose|j: int| 0 <= j < n && (#[trigger] e[j]).0 == i2; assert(0 <= j < n + 1); }
         if i2 == id { assert(0 <= n < n + 1 && e[n].0 == i2); }
     }
-    assert forall|i2: u32| (#[trigger] mc1.contains_key(i2)) == (m.contains_key(i2) && !in_keys(e, n + 1, i2)) && (mc1.contains_key(i2) ==> mc1[i2] == m[i2]) by {
-        assert(mc0.contains_key(i2) == (m.contains_key(i2) && !in_keys(e, n, i2)));
+    assert forall|i2: u32| !in_keys(e, n + 1, i2) implies (#[trigger] mc1.contains_key(i2)) == m.contains_key(i2) && (mc1.contains_key(i2) ==> mc1[i2] == m[i2]) by {
+        assert(!in_keys(e, n, i2) && i2 != id);
+        assert(mc0.contains_key(i2) == m.contains_key(i2));
     }
     assert forall|p: SynTypePath, d: SynPath| hit_d(m, e, n + 1, p, d) == (hit_d(m, e, n, p, d) || (m.contains_key(id) && m[id] == p && e[n].1.derives@.contains(d))) by {
         if hit_d(m, e, n + 1, p, d) { let j = choose|j: int| 0 <= j < n + 1 && m.contains_key((#[trigger] e[j]).0) && m[e[j].0] == p && e[j].1.derives@.contains(d); if j < n { assert(hit_d(m, e, n, p, d)); } }
@@ -342,6 +359,14 @@ pub proof fn lemma_merge_step(m: Map<u32, SynTypePath>, mc0: Map<u32, SynTypePat
     assert forall|p: SynTypePath, y: SynAttribute| #[trigger] sa(sc1, p, y) == (sa(s0, p, y) || hit_a(m, e, n + 1, p, y)) by {
         assert(sa(sc0, p, y) == (sa(s0, p, y) || hit_a(m, e, n, p, y)));
     }
+}
+/// implication form for the START of the merge loop body: an id without a syn path changes nothing
+pub proof fn lemma_merge_skip_if(m: Map<u32, SynTypePath>, mc0: Map<u32, SynTypePath>, s0: Map<SynTypePath, Derives>, sc0: Map<SynTypePath, Derives>, e: Seq<(u32, Derives)>, n: int)
+    requires 0 <= n < e.len(), merge_ok(m, mc0, s0, sc0, e, n),
+        forall|i: int, j: int| 0 <= i < j < e.len() ==> (#[trigger] e[i]).0 != (#[trigger] e[j]).0,
+    ensures !mc0.contains_key(e[n].0) ==> merge_ok(m, mc0, s0, sc0, e, n + 1) && mc0.remove(e[n].0) == mc0,
+{
+    if !mc0.contains_key(e[n].0) { lemma_merge_step(m, mc0, mc0, s0, sc0, sc0, e, n); assert(mc0.remove(e[n].0) =~= mc0); }
 }
 pub proof fn lemma_merge_finish(types: &PortableRegistry, m: Map<u32, SynTypePath>, mc: Map<u32, SynTypePath>, r0: Map<SynTypePath, Derives>, s0: Map<SynTypePath, Derives>, sc: Map<SynTypePath, Derives>, a: Map<u32, Derives>, e: Seq<(u32, Derives)>)
     requires merge_ok(m, mc, s0, sc, e, e.len() as int), id_entries_of(e, a), acc_ok(types, m, r0, types.types@.len() as int, a)
